@@ -6,6 +6,8 @@
 import HealSparse.Lemmas.SameWorld
 import HealSparse.Lemmas.ApiScalar
 import HealSparse.Lemmas.ApiBool
+import HealSparse.Lemmas.ApiMulti
+import HealSparse.Lemmas.Moc
 import HealSparse.Props.C12
 namespace HS
 
@@ -1292,5 +1294,588 @@ theorem same_opGeom (h : w₁.SameW w₂) (g₁ : w₁.Good) (g₂ : w₂.Good) 
                    · exact WF.apiUpdate hE hv'
                    · cases hv')
           · exact SimR.same h _
+
+/-! ### union / intersection operations (`mop`) -/
+
+/-- two lists of maps, pairwise content-equal (and `Ok`) -/
+inductive Pw : List MapObj → List MapObj → Prop
+  | nil : Pw [] []
+  | cons {a b : MapObj} {l₁ l₂ : List MapObj} : a.SameC b → a.Ok → b.Ok → Pw l₁ l₂ → Pw (a :: l₁) (b :: l₂)
+
+theorem Pw.map_eq {β : Type} {l₁ l₂ : List MapObj} (h : Pw l₁ l₂) (F₁ F₂ : MapObj → β)
+    (hF : ∀ a b, a ∈ l₁ → a.SameC b → F₂ b = F₁ a) : l₂.map F₂ = l₁.map F₁ := by
+  induction h with
+  | nil => rfl
+  | @cons a b l₁ l₂ hab _ _ _ ih =>
+    rw [List.map_cons, List.map_cons, hF a b List.mem_cons_self hab,
+      ih fun x y hx hxy => hF x y (List.mem_cons_of_mem _ hx) hxy]
+
+theorem Pw.any_eq {l₁ l₂ : List MapObj} (h : Pw l₁ l₂) (P₁ P₂ : MapObj → Bool)
+    (hP : ∀ a b, a ∈ l₁ → a.SameC b → P₂ b = P₁ a) : l₂.any P₂ = l₁.any P₁ := by
+  have := h.map_eq P₁ P₂ hP
+  have e1 : l₂.any P₂ = (l₂.map P₂).any id := by rw [List.any_map]; rfl
+  have e2 : l₁.any P₁ = (l₁.map P₁).any id := by rw [List.any_map]; rfl
+  rw [e1, e2, this]
+
+theorem Pw.all_eq {l₁ l₂ : List MapObj} (h : Pw l₁ l₂) (P₁ P₂ : MapObj → Bool)
+    (hP : ∀ a b, a ∈ l₁ → a.SameC b → P₂ b = P₁ a) : l₂.all P₂ = l₁.all P₁ := by
+  have := h.map_eq P₁ P₂ hP
+  have e1 : l₂.all P₂ = (l₂.map P₂).all id := by rw [List.all_map]; rfl
+  have e2 : l₁.all P₁ = (l₁.map P₁).all id := by rw [List.all_map]; rfl
+  rw [e1, e2, this]
+
+theorem Pw.length_eq {l₁ l₂ : List MapObj} (h : Pw l₁ l₂) : l₂.length = l₁.length := by
+  induction h with
+  | nil => rfl
+  | cons _ _ _ _ ih => simp only [List.length_cons, ih]
+
+theorem Pw.ok_left {l₁ l₂ : List MapObj} (h : Pw l₁ l₂) : ∀ m ∈ l₁, m.WF ∧ m.KindOk := by
+  induction h with
+  | nil => intro m hm; cases hm
+  | cons _ ha _ _ ih =>
+    intro m hm
+    rcases List.mem_cons.1 hm with rfl | hm
+    · exact ⟨ha.1, ha.2.1⟩
+    · exact ih m hm
+
+theorem Pw.ok_right {l₁ l₂ : List MapObj} (h : Pw l₁ l₂) : ∀ m ∈ l₂, m.WF ∧ m.KindOk := by
+  induction h with
+  | nil => intro m hm; cases hm
+  | cons _ _ hb _ ih =>
+    intro m hm
+    rcases List.mem_cons.1 hm with rfl | hm
+    · exact ⟨hb.1, hb.2.1⟩
+    · exact ih m hm
+
+theorem sp_any_same {c : Cfg} {vc : VCfg Val} {s₁ s₂ : State Val} (hS : C10.Same c vc s₁ s₂)
+    (P : Val → Bool) : s₁.sp.any P = s₂.sp.any P := by
+  have h := sp_all_same hS (fun x => !P x)
+  have e : ∀ a : Array Val, a.any P = !(a.all fun x => !P x) := by
+    intro a
+    cases a with
+    | mk l =>
+      simp only [List.any_toArray, List.all_toArray]
+      induction l with
+      | nil => rfl
+      | cons x xs ih => simp only [List.any_cons, List.all_cons, ih, Bool.not_and, Bool.not_not]
+  rw [e, e, h]
+
+open ApiMulti in
+/-- **union / intersection operations on pairwise content-equal inputs**: the same error, or
+    content-equal results -/
+theorem apiMultiOp_sameC (row : OpRow) {l₁ l₂ : List MapObj} (h : Pw l₁ l₂) :
+    ExR MapObj.SameC (apiMultiOp row l₁) (apiMultiOp row l₂) := by
+  rw [apiMultiOp_eq_spec, apiMultiOp_eq_spec]
+  cases h with
+  | nil => exact ExR.err _
+  | @cons f₁ f₂ r₁ r₂ hf ok1 ok2 hr =>
+    have hpw : Pw (f₁ :: r₁) (f₂ :: r₂) := .cons hf ok1 ok2 hr
+    have he := hf.eq_with_st
+    generalize f₂.st = s₂ at he
+    subst he
+    unfold spec
+    simp only []
+    have hnil : (r₂ = []) ↔ (r₁ = []) := by
+      have := hr.length_eq
+      constructor <;> intro e <;> (rw [e] at this; simp at this; first | exact this | exact List.eq_nil_of_length_eq_zero this.symm | exact List.eq_nil_of_length_eq_zero this)
+    by_cases hr1 : r₁ = []
+    · rw [if_pos hr1, if_pos (hnil.2 hr1)]; exact ExR.err _
+    · rw [if_neg hr1, if_neg (fun e => hr1 (hnil.1 e))]
+      split
+      · exact ExR.err _
+      · rename_i hff
+        have hchk : List.findSome? (mapCheck row ({ f₁ with st := s₂ } : MapObj)) ({ f₁ with st := s₂ } :: r₂)
+            = List.findSome? (mapCheck row f₁) (f₁ :: r₁) := by
+          have := hpw.map_eq (mapCheck row f₁) (mapCheck row ({ f₁ with st := s₂ } : MapObj))
+            (fun a b _ hab => by
+              have e := hab.eq_with_st
+              generalize b.st = t at e
+              subst e
+              rfl)
+          have e1 : ∀ (l : List MapObj) (g : MapObj → Option Err), l.findSome? g = (l.map g).findSome? id := by
+            intro l g; rw [List.findSome?_map]; rfl
+          rw [e1, e1 (f₁ :: r₁), this]
+        rw [hchk]
+        cases hcs : List.findSome? (mapCheck row f₁) (f₁ :: r₁) with
+        | some e => exact ExR.err _
+        | none =>
+          simp only []
+          show ExR _ _ (if (isWide f₁.kind && row.fillFirst) = true then _ else _)
+          split
+          · exact ExR.err _
+          · rename_i hwf
+            have hacc1 : Accepts row f₁ (f₁ :: r₁) := by
+              refine ⟨by cases r₁ <;> simp at hr1 ⊢, fun hc => hff (by simp [hc.1, hc.2]),
+                fun m hm => List.findSome?_eq_none_iff.1 hcs m hm, fun hc => hwf (by simp [hc.1, hc.2])⟩
+            have hacc2 : Accepts row ({ f₁ with st := s₂ } : MapObj) ({ f₁ with st := s₂ } :: r₂) := by
+              refine ⟨by
+                  have := hr.length_eq
+                  cases r₁ with
+                  | nil => exact absurd rfl hr1
+                  | cons x xs => simp only [List.length_cons] at this ⊢; omega,
+                fun hc => hff (by simp [hc.1, hc.2]),
+                fun m hm => ?_, fun hc => hwf (by simp [hc.1, hc.2])⟩
+              rw [← hchk] at hcs
+              exact List.findSome?_eq_none_iff.1 hcs m hm
+            have hcov : ∀ k, k < f₁.c.ncov →
+                ((({ f₁ with st := s₂ } : MapObj) :: r₂).any (fun m => covered m.c m.st k)
+                  = (f₁ :: r₁).any (fun m => covered m.c m.st k)) ∧
+                ((({ f₁ with st := s₂ } : MapObj) :: r₂).all (fun m => covered m.c m.st k)
+                  = (f₁ :: r₁).all (fun m => covered m.c m.st k)) := by
+              intro k hk
+              have hP : ∀ a b, a ∈ f₁ :: r₁ → a.SameC b → covered b.c b.st k = covered a.c a.st k := by
+                intro a b ha hab
+                exact hab.covered_eq (by rw [hacc1.c_eq ha]; exact hk)
+              exact ⟨hpw.any_eq _ _ hP, hpw.all_eq _ _ hP⟩
+            have hany : anyCov row ({ f₁ with st := s₂ } : MapObj) ({ f₁ with st := s₂ } :: r₂)
+                = anyCov row f₁ (f₁ :: r₁) := by
+              unfold anyCov
+              apply any_congr_mem
+              intro k hk
+              have := hcov k (List.mem_range.1 hk)
+              show (if row.union = true then _ else _) = _
+              rw [this.1, this.2]
+            have hsc : sentClash (vcOut row f₁) ({ f₁ with st := s₂ } :: r₂)
+                = sentClash (vcOut row f₁) (f₁ :: r₁) := by
+              unfold sentClash
+              exact hpw.any_eq _ _ fun a b _ hab => by
+                rw [hab.vc_eq]; exact (sp_any_same hab.same _).symm
+            have hfc : fltClash row ({ f₁ with st := s₂ } : MapObj) ({ f₁ with st := s₂ } :: r₂)
+                = fltClash row f₁ (f₁ :: r₁) := by
+              unfold fltClash
+              show (_ && _) = (_ && _)
+              congr 1
+              exact hpw.any_eq _ _ fun a b _ hab => (sp_any_same hab.same _).symm
+            show ExR _ _ (if (!anyCov row ({ f₁ with st := s₂ } : MapObj) ({ f₁ with st := s₂ } :: r₂)) = true
+              then .ok (emptyLike row f₁)
+              else if (row.promoted != (if isWide f₁.kind = true then "u1" else dtCode (dtOut row f₁))) = true
+                then .error .value
+              else if sentClash (vcOut row f₁) ({ f₁ with st := s₂ } :: r₂) = true then .error .inexact
+              else if fltClash row ({ f₁ with st := s₂ } : MapObj) ({ f₁ with st := s₂ } :: r₂) = true
+                then .error .inexact
+              else match core row ({ f₁ with st := s₂ } : MapObj) ({ f₁ with st := s₂ } :: r₂) with
+                | none => .error .index
+                | some st => if outClash row f₁ st = true then .error .inexact
+                    else .ok (resultOf row f₁ st))
+            rw [hany, hsc, hfc]
+            by_cases hA : (!anyCov row f₁ (f₁ :: r₁)) = true
+            · rw [if_pos hA, if_pos hA]
+              have hw : (emptyLike row f₁).WF :=
+                ⟨ok1.1.1, inv_makeEmpty' f₁.c (vcE row f₁) [] List.nodup_nil (by simp)⟩
+              exact MapObj.SameC.refl hw
+            · rw [if_neg hA, if_neg hA]
+              by_cases hB : (row.promoted != (if isWide f₁.kind = true then "u1" else dtCode (dtOut row f₁))) = true
+              · rw [if_pos hB, if_pos hB]; exact ExR.err _
+              · rw [if_neg hB, if_neg hB]
+                by_cases hcl : sentClash (vcOut row f₁) (f₁ :: r₁) = true
+                · rw [if_pos hcl, if_pos hcl]; exact ExR.err _
+                · rw [if_neg hcl, if_neg hcl]
+                  by_cases hD : fltClash row f₁ (f₁ :: r₁) = true
+                  · rw [if_pos hD, if_pos hD]; exact ExR.err _
+                  · rw [if_neg hD, if_neg hD]
+                    have hcl1 : sentClash (vcOut row f₁) (f₁ :: r₁) = false := by
+                      cases hx : sentClash (vcOut row f₁) (f₁ :: r₁) with
+                      | false => rfl
+                      | true => exact absurd hx hcl
+                    obtain ⟨t₁, c1, i1, a1, k1⟩ := core_spec hacc1 List.mem_cons_self hpw.ok_left hcl1
+                    obtain ⟨t₂, c2, i2, a2, k2⟩ := core_spec hacc2 List.mem_cons_self hpw.ok_right
+                      (by rw [← hsc] at hcl1; exact hcl1)
+                    rw [c1, c2]
+                    simp only []
+                    have hvals : ∀ p, p < f₁.c.npix →
+                        vals ({ f₁ with st := s₂ } :: r₂) p = vals (f₁ :: r₁) p := by
+                      intro p hp
+                      unfold vals
+                      have := hpw.map_eq
+                        (fun m => if m.vc.valid (m.abs p) then some (m.abs p) else none)
+                        (fun m => if m.vc.valid (m.abs p) then some (m.abs p) else none)
+                        (fun a b ha hab => by
+                          have hpa : p < a.npix := by
+                            unfold MapObj.npix; rw [hacc1.c_eq ha]; exact hp
+                          rw [hab.vc_eq, hab.abs_eq hpa])
+                      have e1 : ∀ (l : List MapObj) (g : MapObj → Option Val),
+                          l.filterMap g = (l.map g).filterMap id := by
+                        intro l g; rw [List.filterMap_map]; rfl
+                      rw [e1, e1 (f₁ :: r₁), this]
+                    have hSt : C10.Same f₁.c (vcOut row f₁) t₁ t₂ := by
+                      refine ⟨i1, i2, fun p hp => ?_, fun k hk => ?_⟩
+                      · refine (a1 p hp).trans (Eq.trans ?_ (a2 p hp).symm)
+                        show _ = denseOf (vcOut row f₁).sentinel (cellF row f₁) (fillerOf row f₁) row.union
+                          row.fillFirst (({ f₁ with st := s₂ } : MapObj) :: r₂).length
+                          (vals (({ f₁ with st := s₂ } : MapObj) :: r₂) p)
+                        rw [hvals p hp, hpw.length_eq]
+                      · refine (k1 k hk).trans (Eq.trans ?_ (k2 k hk).symm)
+                        rw [(hcov k hk).1, (hcov k hk).2]
+                    have hoc : outClash row f₁ t₂ = outClash row f₁ t₁ := by
+                      unfold outClash
+                      exact (sp_any_same hSt _).symm
+                    rw [hoc]
+                    by_cases hE : outClash row f₁ t₁ = true
+                    · rw [if_pos hE, if_pos hE]; exact ExR.err _
+                    · rw [if_neg hE, if_neg hE]
+                      exact ⟨rfl, rfl, rfl, rfl, rfl, rfl, hSt⟩
+
+theorem mapM_get_pw (h : w₁.SameW w₂) (g₁ : w₁.Good) (g₂ : w₂.Good) :
+    ∀ names : List String,
+      (names.mapM w₁.get? = none ∧ names.mapM w₂.get? = none) ∨
+      ∃ l₁ l₂, names.mapM w₁.get? = some l₁ ∧ names.mapM w₂.get? = some l₂ ∧ Pw l₁ l₂
+  | [] => .inr ⟨[], [], rfl, rfl, .nil⟩
+  | n :: ns => by
+    rw [List.mapM_cons, List.mapM_cons]
+    rcases h.get g₁ g₂ n with ⟨e1, e2⟩ | ⟨m₁, m₂, e1, e2, hc⟩
+    · rw [e1, e2]; exact .inl ⟨rfl, rfl⟩
+    · rw [e1, e2]
+      rcases mapM_get_pw h g₁ g₂ ns with ⟨q1, q2⟩ | ⟨l₁, l₂, q1, q2, hp⟩
+      · rw [q1, q2]; exact .inl ⟨rfl, rfl⟩
+      · rw [q1, q2]
+        exact .inr ⟨m₁ :: l₁, m₂ :: l₂, rfl, rfl, .cons hc (g₁.get e1) (g₂.get e2) hp⟩
+
+theorem same_opMop (h : w₁.SameW w₂) (g₁ : w₁.Good) (g₂ : w₂.Good) (a : Args) :
+    SimR (opMop w₁ a) (opMop w₂ a) := by
+  unfold opMop
+  simp only []
+  rcases mapM_get_pw h g₁ g₂ (splitList (a.getD "maps" "_")) with ⟨q1, q2⟩ | ⟨l₁, l₂, q1, q2, hp⟩
+  · rw [q1, q2]; exact SimR.same h _
+  · rw [q1, q2]
+    simp only []
+    have hcode : (l₂.head?.map (·.kind.code)).getD "" = (l₁.head?.map (·.kind.code)).getD "" := by
+      cases hp with
+      | nil => rfl
+      | cons hc _ _ _ => simp only [List.head?_cons, Option.map_some, Option.getD_some, hc.kind_eq]
+    rw [hcode, hp.length_eq]
+    split
+    · exact SimR.same h _
+    · rename_i row _
+      rcases (apiMultiOp_sameC row.withSpec hp).cases with ⟨r₁, r₂, x1, x2, hr⟩ | ⟨e, x1, x2⟩
+      · rw [x1, x2]; exact ⟨rfl, h.bind _ hr⟩
+      · rw [x1, x2]; exact SimR.same h _
+
+/-! ### `as_bit_packed_map` (`pack`) -/
+
+theorem apiAsBitPacked_sameC {m₁ m₂ : MapObj} (hc : m₁.SameC m₂) (hv : m₁.BlankInvalid) :
+    ExR MapObj.SameC (apiAsBitPacked m₁) (apiAsBitPacked m₂) := by
+  have hS := hc.same
+  have he := hc.eq_with_st
+  generalize m₂.st = s₂ at he hS
+  subst he
+  rw [ApiScalar.apiAsBitPacked_eq, ApiScalar.apiAsBitPacked_eq]
+  show ExR _ _ (if m₁.kind = .packed then .ok { m₁ with st := s₂, cache := none }
+      else if m₁.c.nfine % 8 ≠ 0 then .error .value
+      else .ok { m₁ with kind := .packed, sent := .bool false, cache := none, st := (mapCells (asBitPacked m₁.c m₁.vc s₂) Val.bool) })
+  by_cases hk : m₁.kind = .packed
+  · rw [if_pos hk, if_pos hk]
+    exact ⟨rfl, rfl, rfl, rfl, rfl, rfl, hS⟩
+  · rw [if_neg hk, if_neg hk]
+    by_cases h8 : m₁.c.nfine % 8 ≠ 0
+    · rw [if_pos h8, if_pos h8]; exact ExR.err _
+    · rw [if_neg h8, if_neg h8]
+      obtain ⟨i1, a1, c1⟩ := C12.asBitPacked_spec m₁.c m₁.vc m₁.st hS.1 hv
+      obtain ⟨i2, a2, c2⟩ := C12.asBitPacked_spec m₁.c m₁.vc s₂ hS.2.1 hv
+      refine ⟨rfl, rfl, rfl, rfl, rfl, rfl, ?_, ?_, ?_, ?_⟩
+      · exact inv_mapCells m₁.c (⟨false, fun b => b⟩ : VCfg Bool) _ _ Val.bool i1 rfl
+      · exact inv_mapCells m₁.c (⟨false, fun b => b⟩ : VCfg Bool) _ _ Val.bool i2 rfl
+      · intro p hp
+        show abs m₁.c _ (mapCells (asBitPacked m₁.c m₁.vc m₁.st) Val.bool) p
+          = abs m₁.c _ (mapCells (asBitPacked m₁.c m₁.vc s₂) Val.bool) p
+        rw [abs_mapCells m₁.c (⟨false, fun b => b⟩ : VCfg Bool) _ _ Val.bool i1 p hp,
+          abs_mapCells m₁.c (⟨false, fun b => b⟩ : VCfg Bool) _ _ Val.bool i2 p hp,
+          a1 p hp, a2 p hp, hS.2.2.1 p hp]
+      · intro k hk'
+        show covered m₁.c (mapCells (asBitPacked m₁.c m₁.vc m₁.st) Val.bool) k
+          = covered m₁.c (mapCells (asBitPacked m₁.c m₁.vc s₂) Val.bool) k
+        rw [mapCells_covered, mapCells_covered, c1 k, c2 k, hS.2.2.2 k hk']
+
+theorem same_opPack (h : w₁.SameW w₂) (g₁ : w₁.Good) (g₂ : w₂.Good) (a : Args) :
+    SimR (opPack w₁ a) (opPack w₂ a) := by
+  unfold opPack
+  refine sim_withMap h g₁ g₂ fun n m₁ m₂ hn e1 e2 hc ok1 ok2 => ?_
+  rcases (apiAsBitPacked_sameC hc ok1.2.1.blankInvalid).cases with ⟨r₁, r₂, x1, x2, hr⟩ | ⟨e, x1, x2⟩
+  · rw [x1, x2]
+    simp only []
+    refine ⟨rfl, (h.bind _ hr).with_metas' ?_⟩
+    show _ :: List.filter _ w₁.metas = _ :: List.filter _ w₂.metas
+    rw [h.2.2.2.2.2, hc.kind_eq]
+  · rw [x1, x2]; exact SimR.same h _
+
+/-! ### `interpolate_pos` -/
+
+/-- plain numeric map -/
+def Kind.plainNum : Kind → Bool
+  | .plain .bool => false
+  | .plain _ => true
+  | _ => false
+
+/-- the interpolated values (past the checks) -/
+def interpVals (m : MapObj) (nbrs : List (List (Nat × (Int × Nat)))) (allowPartial : Bool) : List Val :=
+  nbrs.map fun g =>
+    let vw := g.map fun pw => (m.abs pw.1, pw.2)
+    match interpContrib m.vc vw allowPartial with
+    | none => unseenOf (.flt 64)
+    | some l =>
+      let sxw := dySum (l.map fun p => dyMul p.1.numD p.2)
+      let sw := dySum (l.map fun p => p.2)
+      if sw.1 == 0 then .poison
+      else
+        let sgn : Int := if sw.1 < 0 then -1 else 1
+        mkRat (sgn * sxw.1 * 2 ^ sw.2) (sw.1.natAbs * 2 ^ sxw.2)
+
+theorem apiInterp_flat (m : MapObj) (nbrs : List (List (Nat × (Int × Nat)))) (ap : Bool) :
+    apiInterp m nbrs ap =
+      if m.kind.plainNum then
+        (if nbrs.any (fun g => g.any fun pw => pw.1 ≥ m.npix) then .error .index
+         else if !cellsFitF64 m.st.sp then .error .inexact
+         else .ok (interpVals m nbrs ap))
+      else .error .notImpl := by
+  obtain ⟨co, so, kind, sent, st, ca, vi⟩ := m
+  unfold apiInterp interpVals
+  simp only [bind, Except.bind, pure, Except.pure, throw, throwThe, MonadExceptOf.throw]
+  cases kind with
+  | plain dt => cases dt <;> rfl
+  | packed => rfl
+  | wide n => rfl
+  | recd fs pr => rfl
+
+theorem apiInterp_sameC {m₁ m₂ : MapObj} (hc : m₁.SameC m₂)
+    (nb : List (List (Nat × (Int × Nat)))) (ap : Bool) : apiInterp m₂ nb ap = apiInterp m₁ nb ap := by
+  rw [apiInterp_flat, apiInterp_flat, hc.kind_eq, hc.npix_eq]
+  have hfit : cellsFitF64 m₂.st.sp = cellsFitF64 m₁.st.sp := by
+    unfold cellsFitF64; exact (sp_all_same hc.same _).symm
+  rw [hfit]
+  split
+  · split
+    · rfl
+    · rename_i hany
+      split
+      · rfl
+      · congr 1
+        unfold interpVals
+        apply List.map_congr_left
+        intro g hg
+        have hlt : ∀ pw ∈ g, pw.1 < m₁.npix := by
+          intro pw hpw
+          have h1 := (ApiRanges.not_any_iff.1 hany) g hg
+          have h2 := (ApiRanges.not_any_iff.1 (by rw [h1]; exact Bool.false_ne_true)) pw hpw
+          simpa using h2
+        have : (g.map fun pw => (m₂.abs pw.1, pw.2)) = g.map fun pw => (m₁.abs pw.1, pw.2) := by
+          apply List.map_congr_left
+          intro pw hpw
+          rw [hc.abs_eq (hlt pw hpw)]
+        simp only [this, hc.vc_eq]
+  · rfl
+
+theorem same_opInterp (h : w₁.SameW w₂) (g₁ : w₁.Good) (g₂ : w₂.Good) (a : Args) :
+    SimR (opInterp w₁ a) (opInterp w₂ a) := by
+  unfold opInterp
+  refine sim_withMap h g₁ g₂ fun n m₁ m₂ hn e1 e2 hc ok1 ok2 => ?_
+  simp only [apiInterp_sameC hc]
+  walk
+  all_goals exact SimR.same h _
+
+/-! ### MOC files (`moc`) -/
+
+theorem sorted_eq_of_mem {l₁ l₂ : List Nat} (h1 : l₁.Pairwise (· < ·)) (h2 : l₂.Pairwise (· < ·))
+    (hm : ∀ x, x ∈ l₁ ↔ x ∈ l₂) : l₁ = l₂ := by
+  have n1 : l₁.Nodup := h1.imp (fun h => Nat.ne_of_lt h)
+  have n2 : l₂.Nodup := h2.imp (fun h => Nat.ne_of_lt h)
+  apply List.Perm.eq_of_pairwise (le := fun a b => decide (a < b))
+  · intro a b _ _ hab hba
+    simp only [decide_eq_true_eq] at hab hba
+    omega
+  · exact h1.imp (fun h => by simpa using h)
+  · exact h2.imp (fun h => by simpa using h)
+  · exact (List.perm_ext_iff_of_nodup n1 n2).2 hm
+
+/-- the UNIQ column written does not depend on the order in which the valid pixels are listed -/
+theorem mocWrite_perm (n m : Nat) {P₁ P₂ : List Nat} (hp : P₁.Perm P₂) (hnd : P₁.Nodup) :
+    mocWrite n m P₁ = mocWrite n m P₂ := by
+  have hnd2 : P₂.Nodup := hp.nodup_iff.1 hnd
+  apply sorted_eq_of_mem (npUnique_sorted _) (npUnique_sorted _)
+  intro u
+  show u ∈ mocWrite n m P₁ ↔ u ∈ mocWrite n m P₂
+  rw [mem_mocWrite_iff n m hnd, mem_mocWrite_iff n m hnd2]
+  have hfull : ∀ e q, Full P₁ e q ↔ Full P₂ e q := by
+    intro e q
+    unfold Full
+    exact ⟨fun h x hx => hp.mem_iff.1 (h x hx), fun h x hx => hp.mem_iff.2 (h x hx)⟩
+  have hcell : ∀ R p e, IsCellOf P₁ R p e ↔ IsCellOf P₂ R p e := by
+    intro R p e
+    unfold IsCellOf
+    simp only [hfull]
+  constructor
+  · rintro ⟨p, hp1, e, hc, hu⟩; exact ⟨p, hp.mem_iff.1 hp1, e, (hcell _ _ _).1 hc, hu⟩
+  · rintro ⟨p, hp1, e, hc, hu⟩; exact ⟨p, hp.mem_iff.2 hp1, e, (hcell _ _ _).2 hc, hu⟩
+
+theorem same_opMoc (h : w₁.SameW w₂) (g₁ : w₁.Good) (g₂ : w₂.Good) (a : Args) :
+    SimR (opMoc w₁ a) (opMoc w₂ a) := by
+  unfold opMoc
+  refine sim_withMap h g₁ g₂ fun n m₁ m₂ hn e1 e2 hc ok1 ok2 => ?_
+  have hv := ok1.2.1.blankInvalid
+  obtain ⟨l₁, l₂, v1, v2, hperm, _⟩ := hc.obs_valid hv
+  rw [v1, v2]
+  simp only []
+  have hemp : l₂.isEmpty = l₁.isEmpty := by
+    cases l₁ with
+    | nil => rw [List.Perm.nil_eq hperm]
+    | cons x xs =>
+      cases l₂ with
+      | nil => exact absurd hperm.symm (by simp)
+      | cons y ys => rfl
+  rw [hemp]
+  split
+  · exact SimR.same h _
+  · obtain ⟨l, e, hp⟩ := C02.validPixels_spec m₁.c m₁.vc m₁.st hc.same.1 hv
+    rw [v1] at e; cases e
+    have hnd : (l₁.map Int.toNat).Nodup := by
+      have h1 : (l₁.map Int.toNat).Perm (((C02.validSet m₁.c m₁.vc m₁.st).map fun p => ((p : Nat) : Int)).map Int.toNat) :=
+        hp.map _
+      rw [h1.nodup_iff, List.map_map]
+      have : (Int.toNat ∘ fun p : Nat => ((p : Nat) : Int)) = id := by
+        funext p; simp
+      rw [this, List.map_id]
+      exact List.filter_sublist.nodup List.nodup_range
+    have hmw := mocWrite_perm m₁.spord m₁.covord (hperm.map Int.toNat) hnd
+    rw [hc.spord_eq, hc.covord_eq, ← hmw, show w₂.mocs = w₁.mocs from h.2.2.2.1.symm]
+    exact ⟨rfl, h.with_mocs _⟩
+
+/-! ### storing through a record-field view: the column is written back into the parent -/
+
+/-- the update left the index and the size of the storage alone (what an update through a view
+    does: the guard against new pixels makes every addressed pixel a covered one) -/
+def SameShape (v v' : MapObj) : Prop := v'.st.cov = v.st.cov ∧ v'.st.sp.size = v.st.sp.size
+
+theorem SameShape.refl' (v : MapObj) (x : Option Nat) : SameShape v { v with cache := x } := ⟨rfl, rfl⟩
+
+/-- the dense view of the parent after a write-back, pixel by pixel -/
+theorem writeBackView_abs {p v' : MapObj} (i : Nat) (hp : p.WF) (hcov : v'.st.cov = p.st.cov)
+    (hsz : v'.st.sp.size = p.st.sp.size) (hc : v'.c = p.c) {q : Nat} (hq : q < p.npix) :
+    (writeBackView p i v').abs q = recSetField i (p.abs q) (v'.abs q) := by
+  have hidx := hp.2.idxOf_lt_size hq
+  have hl : lookup v'.c v'.st q = lookup p.c p.st q := by unfold lookup; rw [hc, hcov]
+  show rd (p.st.sp.mapIdx fun j r => recSetField i r (rd v'.st.sp j (.num 0 0)))
+      (lookup p.c ⟨p.st.cov, _⟩ q).toNat _ = _
+  have hl' : lookup p.c ⟨p.st.cov, p.st.sp.mapIdx fun j r => recSetField i r (rd v'.st.sp j (.num 0 0))⟩ q
+      = lookup p.c p.st q := rfl
+  rw [hl']
+  have hidx' : (lookup p.c p.st q).toNat < p.st.sp.size := hidx
+  unfold rd
+  rw [Array.getElem?_mapIdx, Array.getElem?_eq_getElem hidx']
+  simp only [Option.map_some, Option.getD_some]
+  unfold MapObj.abs abs rd
+  rw [hl, Array.getElem?_eq_getElem hidx', Array.getElem?_eq_getElem (by rw [hsz]; exact hidx')]
+  simp only [Option.getD_some]
+
+/-- **write-backs of content-equal views into content-equal parents are content-equal** -/
+theorem writeBackView_sameC {p₁ p₂ v₁ v₂ : MapObj} (i : Nat) (hp : p₁.SameC p₂) (hv : v₁.SameC v₂)
+    (hw1 : p₁.WF) (hw2 : p₂.WF) (r1 : (writeBackView p₁ i v₁).WF) (r2 : (writeBackView p₂ i v₂).WF)
+    (s1 : v₁.st.cov = p₁.st.cov ∧ v₁.st.sp.size = p₁.st.sp.size)
+    (s2 : v₂.st.cov = p₂.st.cov ∧ v₂.st.sp.size = p₂.st.sp.size) (hc : v₁.c = p₁.c) :
+    (writeBackView p₁ i v₁).SameC (writeBackView p₂ i v₂) := by
+  have hc2 : v₂.c = p₂.c := by rw [hv.c_eq, hc, hp.c_eq]
+  refine ⟨hp.1, hp.2.1, hp.2.2.1, hp.2.2.2.1, rfl, hp.2.2.2.2.2.1, r1.2, ?_, ?_, ?_⟩
+  · have := r2.2
+    have e1 : (writeBackView p₂ i v₂).c = p₁.c := hp.c_eq
+    have e2 : (writeBackView p₂ i v₂).vc = p₁.vc := hp.vc_eq
+    rw [e1, e2] at this
+    exact this
+  · intro q hq
+    have hq1 : q < p₁.npix := hq
+    have hq2 : q < p₂.npix := by rw [hp.npix_eq]; exact hq
+    have a1 := writeBackView_abs i hw1 s1.1 s1.2 hc hq1
+    have a2 := writeBackView_abs i hw2 s2.1 s2.2 hc2 hq2
+    have hvq : q < v₁.npix := by unfold MapObj.npix; rw [hc]; exact hq
+    unfold MapObj.abs at a1 a2
+    have e1 : (writeBackView p₂ i v₂).c = p₁.c := hp.c_eq
+    have e2 : (writeBackView p₂ i v₂).vc = p₁.vc := hp.vc_eq
+    rw [e1, e2] at a2
+    have b1 : (writeBackView p₁ i v₁).c = p₁.c := rfl
+    have b2 : (writeBackView p₁ i v₁).vc = p₁.vc := rfl
+    rw [b1, b2] at a1
+    rw [a1, a2]
+    have := hp.abs_eq hq1
+    have := hv.abs_eq hvq
+    unfold MapObj.abs at *
+    simp only [*]
+  · intro k hk
+    show covered p₁.c p₁.st k = covered p₁.c ⟨p₂.st.cov, _⟩ k
+    exact hp.same.2.2.2 k hk
+
+/-- **`World.put` in content-equal good worlds**, owning target or view: the stored objects are
+    content-equal updates of what the name resolved to, with the operand's configuration, kind,
+    sentinel and view flag; through a view the update left index and size alone -/
+theorem World.SameW.put_inplace (h : w₁.SameW w₂) (g₁ : w₁.Good) (g₂ : w₂.Good) {n : String}
+    {m₁ m₂ m₁' m₂' : MapObj} (e1 : w₁.get? n = some m₁) (e2 : w₂.get? n = some m₂)
+    (hc : m₁'.SameC m₂') (ok1 : m₁'.Ok) (ok2 : m₂'.Ok) (hs1 : m₁'.Same m₁) (hs2 : m₂'.Same m₂)
+    (sh1 : m₁.view ≠ none → SameShape m₁ m₁') (sh2 : m₂.view ≠ none → SameShape m₂ m₂') :
+    (w₁.put n m₁').SameW (w₂.put n m₂') := by
+  rcases World.get?_cases e1 with ⟨hr, hv⟩ | ⟨d, pn, i, p, hd, hdv, hp, hs, hmat, _, _⟩
+  · exact h.put_owning n hc (hs1.2.2.2.2.trans hv)
+  · -- a view: both worlds hold the same descriptor and content-equal parents
+    rcases World.get?_cases e2 with ⟨hr2, hv2⟩ | ⟨d', pn', i', p', hd', hdv', hp', hs', hmat', _, _⟩
+    · exfalso
+      obtain ⟨_, _, _, _, _, _, _, _, _, g7⟩ := materializeView_ok hmat
+      have : m₂'.view = none := hs2.2.2.2.2.trans hv2
+      rw [← hc.2.2.2.2.2.1, hs1.2.2.2.2, g7] at this
+      cases this
+    · obtain ⟨_, _, _, a1, a2, a3, a4, a5, _, a7⟩ := materializeView_ok hmat
+      obtain ⟨_, _, _, b1, b2, b3, b4, b5, _, b7⟩ := materializeView_ok hmat'
+      -- same descriptor, same parent name
+      have hmv1 : m₁'.view = some (pn, i) := hs1.2.2.2.2.trans a7
+      have hmv2 : m₂'.view = some (pn', i') := hs2.2.2.2.2.trans b7
+      have hpi : (pn', i') = (pn, i) := by
+        have := hc.2.2.2.2.2.1
+        rw [hmv1, hmv2] at this
+        exact (Option.some.inj this).symm
+      cases hpi
+      -- the parents
+      rcases h.raw pn with ⟨q1, _⟩ | ⟨P₁, P₂, q1, q2, hP⟩
+      · rw [q1] at hp; cases hp
+      rw [q1] at hp; cases hp
+      rw [q2] at hp'; cases hp'
+      obtain ⟨E₁, hE1, _, rfl⟩ := World.raw?_mem q1
+      obtain ⟨E₂, hE2, _, rfl⟩ := World.raw?_mem q2
+      have hrec := materializeView_parent_recd hmat
+      have hpv1 : E₁.2.view = none := by
+        cases hvv : E₁.2.view with
+        | none => rfl
+        | some x =>
+          have := g₁.2.1 E₁ hE1 (by rw [hvv]; exact fun h => nomatch h)
+          rw [this] at hrec; cases hrec
+      have hPc : E₁.2.SameC E₂.2 := by
+        rcases hP with ⟨_, hP⟩ | ⟨hne, _⟩
+        · exact hP
+        · exact absurd hpv1 hne
+      have hpv2 : E₂.2.view = none := by rw [← hPc.2.2.2.2.2.1]; exact hpv1
+      have hpok1 := g₁.1 E₁ hE1 hpv1
+      have hpok2 := g₂.1 E₂ hE2 hpv2
+      have hdisc1 : (w₁.raw? n).bind (·.view) = some (pn, i) := by rw [hd]; exact hdv
+      have hdisc2 : (w₂.raw? n).bind (·.view) = some (pn, i) := by rw [hd']; exact hdv'
+      -- well-formedness of the two write-backs
+      have r1 : (writeBackView E₁.2 i m₁').WF := by
+        refine WF.writeBackView_of_WF hpok1.1 ok1.1 ?_ (hs1.1.trans a1) (hs1.2.1.trans a2)
+        show m₁'.kind.blank m₁'.sent = _
+        rw [hs1.2.2.1, a3, hs1.2.2.2.1, a4, hs]; rfl
+      have r2 : (writeBackView E₂.2 i m₂').WF := by
+        refine WF.writeBackView_of_WF hpok2.1 ok2.1 ?_ (hs2.1.trans b1) (hs2.2.1.trans b2)
+        show m₂'.kind.blank m₂'.sent = _
+        rw [hs2.2.2.1, b3, hs2.2.2.2.1, b4, hs']; rfl
+      have hv1ne : m₁.view ≠ none := by rw [a7]; exact fun h => nomatch h
+      have hv2ne : m₂.view ≠ none := by rw [b7]; exact fun h => nomatch h
+      have t1 := sh1 hv1ne
+      have t2 := sh2 hv2ne
+      have s1 : m₁'.st.cov = E₁.2.st.cov ∧ m₁'.st.sp.size = E₁.2.st.sp.size := by
+        rw [t1.1, t1.2, a5]; exact ⟨rfl, by simp [mapCells]⟩
+      have s2 : m₂'.st.cov = E₂.2.st.cov ∧ m₂'.st.sp.size = E₂.2.st.sp.size := by
+        rw [t2.1, t2.2, b5]; exact ⟨rfl, by simp [mapCells]⟩
+      have hcc : m₁'.c = E₁.2.c := by unfold MapObj.c; rw [hs1.1, hs1.2.1, a1, a2]
+      have hwb := writeBackView_sameC i hPc hc hpok1.1 hpok2.1 r1 r2 s1 s2 hcc
+      -- the two stores
+      unfold World.put
+      rw [hdisc1, hdisc2, hmv1, hmv2, q1, q2]
+      simp only []
+      refine ⟨?_, h.2.1, h.2.2.1, h.2.2.2.1, h.2.2.2.2.1, h.2.2.2.2.2⟩
+      refine .cons (.inr ⟨by show m₁'.view ≠ none; rw [hmv1]; exact fun h => nomatch h, ?_⟩)
+        (.cons (.inl ⟨hpv1, hwb⟩) (h.1.filter fun s => s != n && s != pn))
+      have := hc.eq_with_st
+      rw [this]
 
 end HS
